@@ -10,7 +10,10 @@ def evValid : Ev → Prop
   | .restarted _ _ e => 0 < e
   | _ => True
 
+instance : DecidablePred evValid := fun ev => by cases ev <;> unfold evValid <;> infer_instance
+
 def ValidTr (t : List Ev) : Prop := ∀ ev ∈ t, evValid ev
+instance (t : List Ev) : Decidable (ValidTr t) := by unfold ValidTr; infer_instance
 
 theorem ValidTr.suffix {t t' : List Ev} (h : ValidTr t') (hs : t <:+ t') : ValidTr t := fun ev he => h ev (hs.subset he)
 
